@@ -207,21 +207,21 @@ theorem bigOf_eq_some (ee wire : Ty) (b : Big) : bigOf ee wire = some b ↔
   split <;> simp_all <;> (cases b <;> simp)
 
 /-- `Nat` under the big-number flag (no check of the types) reads what the checked path reads at `nat` / `nat` -/
-theorem nat_shortcut_sound (env : Env) (fuel : Nat) (tx : Bool) (st : St) :
-    (nNat env fuel ⟨some .nat, tx⟩ (.prim .nat) (.prim .nat) st).map Prod.fst =
-    (nNat env fuel ⟨none, tx⟩ (.prim .nat) (.prim .nat) st).map Prod.fst := by
+theorem nat_shortcut_sound (mk : String → NR) (env : Env) (fuel : Nat) (tx : Bool) (st : St) :
+    (nNat mk env fuel ⟨some .nat, tx⟩ (.prim .nat) (.prim .nat) st).map Prod.fst =
+    (nNat mk env fuel ⟨none, tx⟩ (.prim .nat) (.prim .nat) st).map Prod.fst := by
   simp only [nNat, unroll_plain env fuel (.prim .nat) (.prim .nat) st rfl rfl, R.bind, if_true, withFlags_fst]
 
 /-- `Int` under the flag at `int` / `int` -/
-theorem int_shortcut_sound (env : Env) (fuel : Nat) (tx : Bool) (st : St) :
-    (nInt env fuel ⟨some .int, tx⟩ (.prim .int) (.prim .int) st).map Prod.fst =
-    (nInt env fuel ⟨none, tx⟩ (.prim .int) (.prim .int) st).map Prod.fst := by
+theorem int_shortcut_sound (mk : String → NR) (env : Env) (fuel : Nat) (tx : Bool) (st : St) :
+    (nInt mk env fuel ⟨some .int, tx⟩ (.prim .int) (.prim .int) st).map Prod.fst =
+    (nInt mk env fuel ⟨none, tx⟩ (.prim .int) (.prim .int) st).map Prod.fst := by
   simp only [nInt, unroll_plain env fuel (.prim .int) (.prim .int) st rfl rfl, R.bind, if_true, withFlags_fst]
 
 /-- `Int` under the flag at a wire `nat` -/
-theorem nat_as_int_shortcut_sound (env : Env) (fuel : Nat) (tx : Bool) (st : St) :
-    (nInt env fuel ⟨some .natAsInt, tx⟩ (.prim .nat) (.prim .int) st).map Prod.fst =
-    (nInt env fuel ⟨none, tx⟩ (.prim .nat) (.prim .int) st).map Prod.fst := by
+theorem nat_as_int_shortcut_sound (mk : String → NR) (env : Env) (fuel : Nat) (tx : Bool) (st : St) :
+    (nInt mk env fuel ⟨some .natAsInt, tx⟩ (.prim .nat) (.prim .int) st).map Prod.fst =
+    (nInt mk env fuel ⟨none, tx⟩ (.prim .nat) (.prim .int) st).map Prod.fst := by
   simp only [nInt, unroll_plain env fuel (.prim .nat) (.prim .int) st rfl rfl, R.bind, if_true, withFlags_fst]
 
 /-- `String` under the text-key flag reads what the checked path reads at `text` / `text` -/
@@ -327,9 +327,9 @@ theorem rd_unmetered {α : Type} (f : Bytes → Outcome (α × Bytes)) (st : St)
   exact hu
 
 /-- one element of primitive type through its own entry point, when nothing is metered -/
-theorem deN_prim_elem (env : Env) (tl : Nat) (renv : REnv) (k : Nat) (p : Prim) (sz : Nat) (hs : primSize p = some sz)
+theorem deN_prim_elem (mk : String → NR) (env : Env) (tl : Nat) (renv : REnv) (k : Nat) (p : Prim) (sz : Nat) (hs : primSize p = some sz)
     (f : Flags) (s : St) (hu : Unmetered s) :
-    genericElem (deN env tl renv (k + 1)) (.prim p) (.prim p) (.prim p) f s = bulkElem p f s := by
+    genericElem (deN mk env tl renv (k + 1)) (.prim p) (.prim p) (.prim p) f s = bulkElem p f s := by
   unfold genericElem bulkElem
   rw [addCost_unmetered_ok s hu 3]
   simp only [R.bind]
@@ -339,20 +339,20 @@ theorem deN_prim_elem (env : Env) (tl : Nat) (renv : REnv) (k : Nat) (p : Prim) 
 
 /-- **the bulk reader of primitive vectors reads what the element-wise path reads**: with nothing metered and the
 announced bytes present, for every sequence visitor (vectors, arrays, bounded vectors) -/
-theorem bulk_reads_what_the_generic_path_reads (env : Env) (tl : Nat) (renv : REnv) (k : Nat) (vis : SeqVisitor)
+theorem bulk_reads_what_the_generic_path_reads (mk : String → NR) (env : Env) (tl : Nat) (renv : REnv) (k : Nat) (vis : SeqVisitor)
     (p : Prim) (sz : Nat) (hs : primSize p = some sz) (fl : Flags) (n : Nat) (s2 : St) (hu : Unmetered s2)
     (hfit : n * (3 + sz) ≤ usizeMax) (hbytes : n * sz ≤ s2.input.length) :
     (bulkElems renv vis (.prim p) fl p n s2).map (fun q => (q.1, Flags.clear)) =
-      genericElems (deN env tl renv (k + 1)) vis (.prim p) fl (.prim p) (.prim p) n s2 := by
+      genericElems (deN mk env tl renv (k + 1)) vis (.prim p) fl (.prim p) (.prim p) n s2 := by
   have hacc : acceptsPrimitive renv (renv.length + 1) (.prim p) p = some true := by simp [acceptsPrimitive]
   unfold bulkElems genericElems
   simp only [hs, Option.getD_some, hacc]
   rw [if_neg (by omega), addCost_unmetered_ok s2 hu]
   simp only [R.bind]
   rw [if_neg (by omega)]
-  have hsame : SameReads Unmetered (bulkElem p) (genericElem (deN env tl renv (k + 1)) (.prim p) (.prim p) (.prim p)) fl fl := by
+  have hsame : SameReads Unmetered (bulkElem p) (genericElem (deN mk env tl renv (k + 1)) (.prim p) (.prim p) (.prim p)) fl fl := by
     intro st hp
-    exact ⟨rd (decPrim p) st, rfl, deN_prim_elem env tl renv k p sz hs fl st hp, fun v s e => rd_unmetered _ st hp v s e⟩
+    exact ⟨rd (decPrim p) st, rfl, deN_prim_elem mk env tl renv k p sz hs fl st hp, fun v s e => rd_unmetered _ st hp v s e⟩
   obtain ⟨r, e1, e2⟩ := runSeq_same Unmetered _ _ fl fl hsame vis n s2 hu
   rw [e1, e2]
 
@@ -444,14 +444,14 @@ theorem iterF_bulk_consumes (p : Prim) (sz : Nat) (hs : primSize p = some sz) : 
 /-- **the bulk reader rejects nothing the element-wise path would accept**: whenever a vector visitor succeeds
 element by element, the announced bytes were there (so the bulk reader's length check passes and, by the theorem
 above, it returns the same elements) -/
-theorem generic_success_needs_the_announced_bytes (env : Env) (tl : Nat) (renv : REnv) (k : Nat)
+theorem generic_success_needs_the_announced_bytes (mk : String → NR) (env : Env) (tl : Nat) (renv : REnv) (k : Nat)
     (p : Prim) (sz : Nat) (hs : primSize p = some sz) (fl : Flags) (n : Nat) (s2 : St) (hu : Unmetered s2)
     (vs : List Val) (f : Flags) (s' : St)
-    (h : genericElems (deN env tl renv (k + 1)) .all (.prim p) fl (.prim p) (.prim p) n s2 = .ok (vs, f) s') :
+    (h : genericElems (deN mk env tl renv (k + 1)) .all (.prim p) fl (.prim p) (.prim p) n s2 = .ok (vs, f) s') :
     n * sz ≤ s2.input.length := by
-  have hsame : SameReads Unmetered (bulkElem p) (genericElem (deN env tl renv (k + 1)) (.prim p) (.prim p) (.prim p)) fl fl := by
+  have hsame : SameReads Unmetered (bulkElem p) (genericElem (deN mk env tl renv (k + 1)) (.prim p) (.prim p) (.prim p)) fl fl := by
     intro st hp
-    exact ⟨rd (decPrim p) st, rfl, deN_prim_elem env tl renv k p sz hs fl st hp, fun v s e => rd_unmetered _ st hp v s e⟩
+    exact ⟨rd (decPrim p) st, rfl, deN_prim_elem mk env tl renv k p sz hs fl st hp, fun v s e => rd_unmetered _ st hp v s e⟩
   obtain ⟨r, e1, e2, _⟩ := iterF_same Unmetered _ _ fl fl hsame n s2 hu
   unfold genericElems runSeq at h
   simp only [] at h
@@ -490,17 +490,17 @@ inductive BigCase : RTy → Big → Ty → Ty → Prop
 
 /-- **the big-number shortcut reads what the checked element-wise path reads**, for vectors, arrays and bounded
 vectors of `Nat` / `Int`, with nothing metered -/
-theorem big_shortcut_reads_what_the_generic_path_reads (env : Env) (tl : Nat) (renv : REnv) (k : Nat) (vis : SeqVisitor)
+theorem big_shortcut_reads_what_the_generic_path_reads (mk : String → NR) (env : Env) (tl : Nat) (renv : REnv) (k : Nat) (vis : SeqVisitor)
     (t : RTy) (b : Big) (wire ee : Ty) (hc : BigCase t b wire ee) (tx : Bool) (n : Nat) (s2 : St) (hu : Unmetered s2)
     (hfit : n * 3 ≤ usizeMax) :
-    bigElems (deN env tl renv (k + 1)) vis t ⟨none, tx⟩ b wire ee n s2 =
-      genericElems (deN env tl renv (k + 1)) vis t ⟨none, tx⟩ wire ee n s2 := by
+    bigElems (deN mk env tl renv (k + 1)) vis t ⟨none, tx⟩ b wire ee n s2 =
+      genericElems (deN mk env tl renv (k + 1)) vis t ⟨none, tx⟩ wire ee n s2 := by
   unfold bigElems genericElems
   rw [if_neg (by omega), addCost_unmetered_ok s2 hu]
   simp only [R.bind]
   have hsame : ∃ h : St → R Val, (∀ st v s, Unmetered st → h st = .ok v s → Unmetered s) ∧
-      (∀ st, Unmetered st → deN env tl renv (k + 1) t ⟨some b, tx⟩ wire ee st = withFlags ⟨some b, tx⟩ (h st) ∧
-        genericElem (deN env tl renv (k + 1)) t wire ee ⟨none, tx⟩ st = withFlags ⟨none, tx⟩ (h st)) := by
+      (∀ st, Unmetered st → deN mk env tl renv (k + 1) t ⟨some b, tx⟩ wire ee st = withFlags ⟨some b, tx⟩ (h st) ∧
+        genericElem (deN mk env tl renv (k + 1)) t wire ee ⟨none, tx⟩ st = withFlags ⟨none, tx⟩ (h st)) := by
     cases hc with
     | nat =>
       refine ⟨bigNum (natFast Val.nat), fun st v s hp e => bigNum_unmetered _ st hp v s e, fun st hp => ⟨?_, ?_⟩⟩
@@ -518,8 +518,8 @@ theorem big_shortcut_reads_what_the_generic_path_reads (env : Env) (tl : Nat) (r
       · unfold genericElem; rw [addCost_unmetered_ok st hp]; simp only [R.bind]
         unfold deN deNBody; simp only [nInt, unroll_prim, R.bind, if_true]
   obtain ⟨h, hpres, hh⟩ := hsame
-  have hs : SameReads Unmetered (fun f s => deN env tl renv (k + 1) t f wire ee s)
-      (genericElem (deN env tl renv (k + 1)) t wire ee) ⟨some b, tx⟩ ⟨none, tx⟩ := by
+  have hs : SameReads Unmetered (fun f s => deN mk env tl renv (k + 1) t f wire ee s)
+      (genericElem (deN mk env tl renv (k + 1)) t wire ee) ⟨some b, tx⟩ ⟨none, tx⟩ := by
     intro st hp
     exact ⟨h st, (hh st hp).1, (hh st hp).2, fun v s e => hpres st v s hp e⟩
   obtain ⟨r, e1, e2⟩ := runSeq_same Unmetered _ _ _ _ hs vis n s2 hu
